@@ -77,6 +77,7 @@ type Contract struct {
 	NoFrame   bool                 // the modifies clause is used at call sites but not checked against the body
 	ChecksPub bool                 // element writes are checked against the publication typestate (functions that fill the shared caches)
 	NoSafety  bool                 // the zero-annotation no-panic sweep is not run for this function (recorded in Assumed)
+	Captures  *Clause              // closures: the only variables the function literal may capture (Src = comma-separated names)
 	StoreAnns map[string][]*Clause // "after-store <global> assert e": checked right after the package variable is assigned
 	Immutable []string             // parameters (receivers) whose fields the body must not write (C15)
 	Given     []GhostDecl          // scenario contracts (key "func@name"): universally quantified scenario variables
@@ -369,6 +370,9 @@ func (ss *SpecSet) parseFile(path string, dep bool) error {
 			case "nosafety":
 				cur.NoSafety = true
 				cur.Assumed = append(cur.Assumed, "no-panic sweep (bounds, type assertions, make sizes) not run for "+cur.Key+": "+strings.Trim(rest, `"`))
+			case "captures":
+				tags, body := parseTags(rest)
+				cur.Captures = &Clause{Kind: "captures", Tags: tags, Src: body, Line: ln + 1, File: path}
 			case "after-store":
 				f := strings.SplitN(rest, " ", 3)
 				if len(f) < 3 || f[1] != "assert" {
@@ -578,6 +582,9 @@ func (c *Contract) hasTag(tag string) bool {
 				}
 			}
 		}
+	}
+	if c.Captures != nil && clauseHasTag(c.Captures, tag) {
+		return true
 	}
 	return false
 }
